@@ -225,6 +225,16 @@ def cargo_build(bins=None, features=None, timeout=1800, release=False):
     bindir = os.path.join(TARGET, 'release' if release else 'debug')
     return rc == 0, out, bindir
 
+def cargo_build_asan(bins, features=None, timeout=2400):
+    """AddressSanitizer build of harness bins (nightly toolchain, own target dir). -> (ok, log, bindir)"""
+    with lock('cargo-asan'):
+        cmd = ['cargo', '+nightly', 'build', '--offline', '--target', 'x86_64-unknown-linux-gnu']
+        for b in bins: cmd += ['--bin', b]
+        if features: cmd += ['--features', ','.join(features)]
+        env = {'RUSTFLAGS': '--cfg %s -Zsanitizer=address' % GUARD, 'CARGO_TARGET_DIR': TARGET + '-asan'}
+        rc, out = run(cmd, cwd=HARNESS, env=env, timeout=timeout)
+    return rc == 0, out, os.path.join(TARGET + '-asan', 'x86_64-unknown-linux-gnu', 'debug')
+
 # ------------------------------------------------------------------ findings / reports
 def known_findings(prop):
     """entries of the committed /verif/known_findings.json (assembled from known_findings.d/ by
